@@ -1085,3 +1085,265 @@ class OnionRun(object):
             self.sim.probe('reply-between-events')
         elif pre > 0:
             self.sim.probe('reply-after-events')
+
+
+# ---------------------------------------------------------------------------
+# C15
+# ---------------------------------------------------------------------------
+
+class C15Run(OnionRun):
+
+    def draw_config(self):
+        sim, ch = self.sim, self.ch
+        self.g_foreign = sim.gate('foreign-upload-shared-directory')
+        self.g_all_failed = sim.gate('all-uploads-failed')
+        self.g_await_last_failed = sim.gate('await-all-last-event-failed')
+        self.g_reject = sim.gate('creating-command-rejected')
+        self.g_auth_discard = sim.gate('auth-service-discard-key')
+        self.kind = ['eph', 'fs'][ch.weighted([3, 2], 'kind')]
+        if self.kind == 'eph':
+            self.api = ['eph.create', 'tor.create_onion_service', 'auth.create'][ch.weighted([4, 3, 1], 'api')]
+        else:
+            self.api = ['fs.create', 'tor.create_filesystem_onion_service', 'fsauth.create'][ch.weighted([4, 3, 1], 'api')]
+        self.auth = self.api in ('auth.create', 'fsauth.create')
+        self.version = 2 if self.auth else ch.pick([3, 2], 'version')
+        self.await_param = [None, True, False][ch.weighted([2, 3, 1], 'await')]
+        self.await_all = bool(self.await_param)
+        self.keyform = 'none'
+        if self.kind == 'eph':
+            self.keyform = ['none', 'supplied', 'discard'][ch.weighted([4, 1, 1], 'key')]
+            if self.keyform == 'discard' and self.auth and not self.g_auth_discard:
+                self.keyform = 'none'
+        n_own = 1 + ch.draw(4, 'nown')
+        rot = ch.draw(5, 'rot')
+        pool = HSDIRS[rot:5] + HSDIRS[:rot]
+        own_dirs = pool[:n_own]
+        own_out = [['UPLOADED', 'FAILED', 'NONE'][ch.weighted([4, 3, 1], 'oout')] for _ in own_dirs]
+        self.own_plan = self.make_plan('own', None, own_dirs, own_out)
+        n_f = ch.draw(5, 'nforeign')
+        f_dirs, f_out = [], []
+        cand = pool[:n_own] + [HSDIRS[5]] + pool[n_own:]
+        for _ in range(n_f):
+            d = cand[ch.draw(min(len(cand), n_own + 2), 'fdir')]
+            if d in f_dirs:
+                continue
+            o = ['UPLOADED', 'FAILED', 'NONE'][ch.weighted([3, 3, 1], 'fout')]
+            if o == 'UPLOADED' and d in own_dirs and not self.g_foreign:
+                o = 'FAILED'
+            f_dirs.append(d)
+            f_out.append(o)
+        faddr = FOREIGN_V3 if self.version == 3 else FOREIGN_V2
+        self.foreign_plan = self.make_plan('foreign', faddr, f_dirs, f_out) if f_dirs else None
+        self.early = ch.chance(1, 3, 'early')
+        self.early_quota = 1 + ch.draw(2 * n_own, 'quota') if self.early else 0
+        self.reserve_last = False
+        self.reject = self.g_reject and ch.chance(1, 12, 'reject')
+        self.noise_left = ch.draw(3, 'noise')
+        self.preexisting = self.kind == 'fs' and ch.chance(1, 4, 'preexisting')
+        self.with_progress = ch.chance(2, 3, 'progress')
+        self.segmode = ch.pick(['whole', 'mixed', 'mixed'], 'segmode')
+        self.post_budget = 4 + ch.draw(30, 'post')
+        self.hs_authtype = ch.pick(['UNKNOWN', 'UNKNOWN', 'NO_AUTH'], 'authtype')
+
+    def _run(self):
+        from txtorcon import onion as O
+        sim, ch = self.sim, self.ch
+        self.draw_config()
+        tor = self.build_tor()
+        tor.early_allowed = self.early
+        tor.supports_group_readable = True
+        # the foreign service exists in Tor as a detached ephemeral service of another controller
+        if self.foreign_plan is not None and self.version == 2 and ch.chance(1, 2, 'detachedlisted'):
+            f = Svc('eph', FOREIGN_V2, 2)
+            f.detached = True
+            f.own = False
+            tor.services[FOREIGN_V2] = f
+        if self.preexisting:
+            old = Svc('fs', None, 3)
+            old.dir = os.path.join(self.root, 'hs_old')
+            old.ports = [(443, '127.0.0.1:8443')]
+            tor.materialise(old)
+            tor.fs_services.append(old)
+        self.boot()
+        self.boot_config()
+        self.conn.seg_mode = self.segmode
+        sim.probe('ephemeral' if self.kind == 'eph' else 'filesystem')
+        sim.probe('await-all' if self.await_all else 'await-one')
+        sim.probe('api-tor' if self.api.startswith('tor.') else 'api-direct')
+        self.progress_seen = []
+        progress = self.guard(self.on_progress) if self.with_progress else None
+        ports = [(80, 8080)]
+        key = None
+        if self.keyform == 'discard':
+            key = O.DISCARD
+        elif self.keyform == 'supplied':
+            key = ('RSA1024:' + RSA_KEYS[USER_RSA[0]][0]) if self.version == 2 else USER_V3[0]
+        hsdir = os.path.join(self.root, 'hs_main')
+        if self.reject:
+            sim.probe('creating-command-rejected')
+            tor.fail_next['ADD_ONION' if self.kind == 'eph' else 'SETCONF'] = err(
+                513 if self.kind == 'fs' else 512, 'Unacceptable option value: rejected by the simulated Tor')
+        sim.log('op', 'create', self.api, 'v%d' % self.version, 'await_all=%r' % (self.await_param,), self.keyform,
+                'early' if self.early else '', 'reject' if self.reject else '')
+        self.create = Watch(self, 'create()', on_fire=self.on_create_fired)
+        if self.api == 'eph.create':
+            d = O.EphemeralOnionService.create(sim.reactor, self.config, ports, private_key=key, version=self.version,
+                                               progress=progress, await_all_uploads=self.await_param)
+        elif self.api == 'tor.create_onion_service':
+            d = self.tor_obj.create_onion_service(ports, private_key=key, version=self.version, progress=progress,
+                                                  await_all_uploads=self.await_param)
+        elif self.api == 'auth.create':
+            d = O.EphemeralAuthenticatedOnionService.create(sim.reactor, self.config, ports, private_key=key, version=2,
+                                                            progress=progress, auth=O.AuthBasic(['alice', ('bob', CLIENT_BLOBS[0])]),
+                                                            await_all_uploads=self.await_param)
+        elif self.api == 'fs.create':
+            d = O.FilesystemOnionService.create(sim.reactor, self.config, hsdir, ports, version=self.version,
+                                                progress=progress, await_all_uploads=self.await_param)
+        elif self.api == 'tor.create_filesystem_onion_service':
+            d = self.tor_obj.create_filesystem_onion_service(ports, hsdir, version=self.version, progress=progress,
+                                                             await_all_uploads=self.await_param)
+        else:
+            auth = O.AuthBasic(['alice', 'bob']) if ch.chance(1, 2, 'fsauthtype') else O.AuthStealth(['alice', 'bob'])
+            d = O.FilesystemAuthenticatedOnionService.create(sim.reactor, self.config, hsdir, ports, auth=auth, version=2,
+                                                             progress=progress, await_all_uploads=self.await_param)
+        self.create.attach(d)
+        self.after_step()
+        sim.add_source(self.hs_actions)
+        budget = self.P.get('max_steps', 500)
+        n = post = 0
+        while n < budget:
+            if self.create.fired:
+                post += 1
+                if post > self.post_budget:
+                    break
+            if not self.step():
+                break
+            n += 1
+        self.drain()
+        self.final_checks()
+
+    def expecting_creation(self):
+        return True
+
+    def on_progress(self, pct, tag, desc):
+        self.progress_seen.append(pct)
+        self.sim.probe('progress-callback')
+        self.sim.log('progress', round(float(pct), 1), tag)
+
+    # ----------------------------------------------------------------- safety, at the instant the Deferred fires
+    def on_create_fired(self, w):
+        sim = self.sim
+        hist = self.own_history()
+        state = hist[-1] if hist else (frozenset(),) * 4
+        desc = 'own events delivered so far: attempted %d (%d after the reply), uploaded %d, failed %d' % (
+            len(state[1]), len(state[0]), len(state[2]), len(state[3]))
+        self.emitted_at_fire = self.own_emitted
+        if w.ok:
+            if self.reply_code != 250 or not self.reply_delivered():
+                self.fail('C15.success-without-accepted-command',
+                          'create() succeeded but the creating command had not been answered 250 (reply: %r)' % (self.reply_code,))
+            if not self.upload_condition():
+                d = self.foreign_uploaded_on_own_dir()
+                if d is not None:
+                    self.fail('C15.foreign-uploaded-completes-create',
+                              'create() (%s, await_all=%r) completed although %s; a FOREIGN service\'s UPLOADED for directory #%d, '
+                              'to which we had an upload pending, was taken for ours (UPLOADED is matched on the directory only)'
+                              % (self.api, self.await_param, desc, HSDIRS.index(d)))
+                if self.await_all and state[2]:
+                    self.fail('C15.await-all-success-with-unresolved-upload',
+                              'create(await_all_uploads=True) completed while an attempted upload was neither confirmed nor failed; '
+                              + desc)
+                self.fail('C15.success-without-own-upload',
+                          'create() (%s) completed but no UPLOADED event of this service had been delivered; %s' % (self.api, desc))
+            self.outcome = 'success'
+            sim.probe('completed')
+            return
+        f = w.value
+        what = '%s: %s' % (f.type.__name__, f.getErrorMessage()[:120])
+        if self.reply_code is not None and self.reply_code >= 500 and self.reply_delivered():
+            self.outcome = 'rejected'
+            return
+        if self.conn.client_gone:
+            self.outcome = 'disconnected'
+            return
+        if not self.failure_condition():
+            d = self.foreign_failed_on_own_dir()
+            if d is not None and not state[3]:
+                self.fail('C15.foreign-failed-fails-create',
+                          'create() failed (%s) on a FOREIGN service\'s FAILED event for directory #%d; %s' % (what, HSDIRS.index(d), desc))
+            self.fail('C15.failure-without-all-uploads-failed',
+                      'create() failed (%s) although not every attempted upload of this service had failed; %s' % (what, desc))
+        self.outcome = 'uploads-failed'
+
+    # ----------------------------------------------------------------- quiescence
+    def final_checks(self):
+        sim = self.sim
+        w = self.create
+        self.timing_probe()
+        alive = not self.conn.client_gone
+        own_dirs = set(self.own_plan.dirs())
+        for e in self.events:
+            if e.tag == 'foreign' and e.dir in own_dirs:
+                sim.probe('foreign-event-shared-directory')
+                if e.kind == 'UPLOADED':
+                    sim.probe('foreign-uploaded-shared-directory')
+        outs = set(self.outcome_of(a) for a in self.own_plan.attempts if a['state'] == 2)
+        if len(outs) > 1:
+            sim.probe('mixed-outcomes')
+        hist = self.own_history()
+        final = hist[-1] if hist else None
+        own_res = [e for e in self.delivered_events() if e.tag == 'own' and e.kind in ('UPLOADED', 'FAILED')]
+        if final is not None:
+            ap, aa, okd, fl = final
+            if fl and aa and aa <= fl:
+                sim.probe('all-uploads-failed')
+            if self.await_all and okd and aa <= (okd | fl) and own_res and own_res[-1].kind == 'FAILED':
+                sim.probe('await-all-last-event-failed')
+        if w.fired and (self.own_emitted > self.emitted_at_fire):
+            sim.probe('event-after-completion')
+        no_pre = not any(e.tag == 'own' and not e.post for e in self.events)
+        if not w.fired:
+            sim.probe('pending-at-quiescence')
+            if alive and self.reply_code == 250 and no_pre and final is not None:
+                ap, aa, okd, fl = final
+                desc = 'own events, all delivered after the 250 reply: attempted %d, uploaded %d, failed %d' % (len(ap), len(okd), len(fl))
+                if ap and ap <= fl:
+                    self.fail('C15.create-pending-after-all-uploads-failed',
+                              'every attempted upload of the service failed but create() (%s) neither failed nor completed; %s' % (self.api, desc))
+                if not self.await_all and (okd & ap):
+                    self.fail('C15.create-pending-after-own-upload',
+                              'an UPLOADED event of this service was delivered after the reply but create() (%s, key %s) is still '
+                              'pending at quiescence; %s' % (self.api, self.keyform, desc))
+                if self.await_all and okd and ap and ap <= (okd | fl):
+                    if own_res[-1].kind == 'FAILED':
+                        self.fail('C15.await-all-never-completes-final-failed',
+                                  'create(await_all_uploads=True) (%s) is still pending at quiescence although every attempted upload is '
+                                  'resolved and at least one succeeded; the last resolving event was a FAILED; %s' % (self.api, desc))
+                    self.fail('C15.create-pending-after-all-resolved',
+                              'create(await_all_uploads=True) (%s, key %s) is still pending at quiescence although every attempted upload is '
+                              'resolved and at least one succeeded; %s' % (self.api, self.keyform, desc))
+        if w.fired and alive:
+            left = 'HS_DESC' in self.proto.events
+            last = self.tor.setevents[-1] if self.tor.setevents else []
+            if left or 'HS_DESC' in last:
+                how = {'success': 'success', 'rejected': 'rejected-command'}.get(self.outcome, 'failure')
+                self.fail('C15.listener-left-after-%s' % how,
+                          'create() (%s) has %s, yet at quiescence the HS_DESC subscription is still there (HS_DESC in '
+                          'TorControlProtocol.events: %s; last SETEVENTS received by Tor: %r; AlreadyCalledError seen: %d)' % (
+                              self.api, {'success': 'completed', 'rejected': 'failed because Tor rejected the creating command'}.get(
+                                  self.outcome, 'failed because every upload failed'), left, ' '.join(last), sim.already_called))
+        if sim.already_called:
+            self.fail('C15.completed-twice', 'a Deferred of the descriptor wait was fired a second time (%d AlreadyCalledError)' % sim.already_called)
+        if w.fired > 1:
+            self.fail('C15.completed-twice', 'create() fired %d times' % w.fired)
+
+
+def run(sim):
+    if sim.prop == 'C14':
+        C14Run(sim).run()
+    elif sim.prop == 'C15':
+        C15Run(sim).run()
+    elif sim.prop == 'C17':
+        C17Run(sim).run()
+    else:
+        raise HarnessError('scenario onion does not decide %s' % sim.prop)
